@@ -477,7 +477,30 @@ def machine_shard(rec, shard):
     rec.machine(FileMachine, n, steps, label='file-machine', seed_offset=k)
 
 
+def volume_cases(sizes=(12000, 70000)):
+    """Files of 12 000 and 70 000 messages: observe, edit in place (track objects and lengths unchanged), observe."""
+    for size in sizes:
+        body = [[i % 2, 1 + i % 3] for i in range(size)]
+        for first, second in (('length', 'length'), ('iter', 'length'), ('merged', 'iter'), ('length', 'merged'),
+                              ('play-abandoned', 'length'), ('save', 'length')):
+            for edit in (['msg_set', 0, 5, 'field', 7], ['msg_set', 0, 5, 'time', 960], ['msg_replace', 0, 3, 50, 9],
+                         ['msg_replace', 0, 0, 1, 11]):
+                if size > 12000 and ((first, second) != ('length', 'length') or edit[3] != 'time'):
+                    continue
+                yield {'ops': [['tracks_append', [[2, 0]] + body], ['tracks_append', [[1, 5]]], ['observe', first], edit,
+                               ['observe', second]]}
+
+
+def volume_shard(rec, shard):
+    k, n, sizes = shard
+    for i, case in enumerate(volume_cases(sizes)):
+        if i % n == k:
+            rec.check_tagged(case, sample=False, classes=('volume',))
+
+
 def main(ctx):
+    sizes = (12000,) if ctx.tier == 'quick' or ctx.reduced else (12000, 70000)
+    ctx.pmap('volume_shard', [(k, 12, sizes) for k in range(12)])
     n = 2400 if ctx.tier == 'quick' else 24000
     w = 8 if ctx.tier == 'quick' else 16
     ctx.pmap('machine_shard', [(k, n // w, 25 if ctx.tier == 'quick' else 40) for k in range(w)])
